@@ -13,29 +13,35 @@ CONSTANTS MaxLen, ExportLen,
           PreKind   \* 1: three fixed calls (add foo, add qux, make 3 foo), every call free afterwards
                     \* 2: five fixed calls (... then modify foo through the OTHER handle, make 5 foo: an old and a new
                     \*    quantity under one spelling), afterwards only calls on quantities and string reads (no edits)
-NPre == IF PreKind = 1 THEN 3 ELSE 5
+                    \* 3: five fixed calls (... the unit system, make 3 m, reduce it to the system once), every call free afterwards
+NPre == CASE PreKind = 1 -> 4 [] PreKind = 2 -> 6 [] PreKind = 3 -> 5
 
 Pre(n) == CASE n = 1 -> RegCall(0, Add("foo", 2, TRUE, "L"))
             [] n = 2 -> RegCall(0, Add("qux", 2, FALSE, "T"))
-            [] n = 3 -> Make(0, "foo")
-            [] n = 4 -> RegCall(1, Modify("foo", 4))
-            [] n = 5 -> Make(0, "foo")
+            [] n = 3 -> NewSys
+            [] n = 4 /\ PreKind # 3 -> Make(0, "foo")
+            [] n = 5 /\ PreKind = 2 -> RegCall(1, Modify("foo", 4))
+            [] n = 6 /\ PreKind = 2 -> Make(0, "foo")
+            [] n = 4 /\ PreKind = 3 -> MakeM(0)
+            [] n = 5 /\ PreKind = 3 -> InSys(1)
 Free ==
   \/ \E h \in Handles :
        \/ (PreKind = 1 /\ \E s \in Syms, sc \in Scales, px \in BOOLEAN, d \in Dims : RegCall(h, Add(s, sc, px, d)))
-       \/ (PreKind = 1 /\ \E s \in Keys, sc \in Scales : RegCall(h, Modify(s, sc)))
-       \/ (PreKind = 1 /\ \E s \in Keys : RegCall(h, Remove(s)))
-       \/ (PreKind = 1 /\ \E s \in Keys : RegCall(h, Contains(s)))
-       \/ \E p \in Probes : RegCall(h, Construct(p))
-       \/ \E p \in Probes : Make(h, p)
+       \/ (PreKind # 2 /\ \E s \in Keys, sc \in Scales : RegCall(h, Modify(s, sc)))
+       \/ (PreKind # 2 /\ \E s \in Keys : RegCall(h, Remove(s)))
+       \/ (PreKind # 2 /\ \E s \in Keys : RegCall(h, Contains(s)))
+       \/ (PreKind # 3 /\ \E p \in Probes : RegCall(h, Construct(p)))
+       \/ (PreKind # 3 /\ \E p \in Probes : Make(h, p))
+       \/ MakeM(h)
   \/ \E i \in DOMAIN objs, p \in Probes : To(i, p) \/ ConvIn(i, p)
   \/ \E i \in DOMAIN objs, j \in DOMAIN objs : Plus(i, j) \/ Times(i, j) \/ Over(i, j) \/ ToU(i, j) \/ ConvInU(i, j) \/ Cmp("eq", i, j) \/ Cmp("lt", i, j)
-  \/ \E i \in DOMAIN objs : Dup("copy", i) \/ Dup("deepcopy", i) \/ Pickle(i) \/ InBase(i)
+  \/ \E i \in DOMAIN objs : Dup("copy", i) \/ Dup("deepcopy", i) \/ Pickle(i) \/ InBase(i) \/ InSys(i) \/ ConvInSys(i)
 SNext == /\ Len(hist) < MaxLen
          /\ IF Len(hist) < NPre THEN Pre(Len(hist) + 1) ELSE Free
 SSpec == SInit /\ [][SNext]_svars
 
-SView == <<user, lut, ucache, objs>>
+\* (the fixed calls that only report - the unit system, the first reduction - would otherwise look like stuttering)
+SView == <<user, lut, ucache, objs, IF Len(hist) <= NPre THEN Len(hist) ELSE 0>>
 Events(h, a) == [n \in DOMAIN h |-> [e |-> h[n], h |-> a[n].h]]
 \* transition cover: one witness per explored transition, with the model's own result of the last call
 ExportTrans == Len(hist') > NPre => PrintT(ToJson([tag |-> "HIST", ev |-> Events(hist', aux'), res |-> sres', objs |-> [n \in DOMAIN objs' |-> Proj(objs'[n])]]))
@@ -46,12 +52,13 @@ LastE == hist'[Len(hist')]
 \* C12_Keep, frame: whatever the call, every quantity that existed before is still there, and only the target of an
 \* in-place conversion may differ
 FrameStep == /\ Len(objs') >= Len(objs)
-             /\ \A n \in DOMAIN objs : objs'[n] = objs[n] \/ (LastE.op \in {"convin", "convinu"} /\ LastE.i = n)
+             /\ \A n \in DOMAIN objs : objs'[n] = objs[n] \/ (LastE.op \in {"convin", "convinu", "convinsys"} /\ LastE.i = n)
 \* C12_Keep, denotation: a conversion (copying or in place, to a string or to a Unit object) changes how a quantity is
 \* written, never what it denotes - also for quantities labelled before an edit
 DenoteStep ==
   /\ (LastE.op \in {"to", "tou"} /\ sres'.k = "obj") => SI(objs'[Len(objs')]) = SI(objs[LastE.i])
-  /\ (LastE.op \in {"convin", "convinu"} /\ sres'.k = "obj") => SI(objs'[LastE.i]) = SI(objs[LastE.i])
+  /\ (LastE.op \in {"convin", "convinu", "convinsys"} /\ sres'.k = "obj") => SI(objs'[LastE.i]) = SI(objs[LastE.i])
+  /\ (LastE.op = "insys") => RMul(sres'.o.v, sres'.o.s) = SI(objs[LastE.i])
   /\ (LastE.op = "plus" /\ sres'.k = "obj") => SI(objs'[Len(objs')]) = RAdd(SI(objs[LastE.i]), SI(objs[LastE.j]))
 \* C12_Fresh at the moment of labelling: a new quantity, and the target of a string conversion, carry the scale the caller's
 \* view of the registry gives the string NOW - unless a derived prefixed row that outlived an edit of its base symbol is
